@@ -6,7 +6,7 @@
 From Coq Require Import String List NArith ZArith Bool Lia ZifyN ZifyNat ZifyBool.
 From J5V.lib Require Import Text Outcome.
 From J5V.model Require Import BclLexer.
-From J5V.proofs Require Import BclPosProofs BclLexerProofs BclTextProofs.
+From J5V.proofs Require Import BclPosProofs BclLexerProofs BclParserProofs BclTextProofs BclLineNoProofs.
 Import ListNotations.
 Local Open Scope Z_scope.
 
@@ -92,4 +92,20 @@ Proof.
   pose proof (all_tokens_loop_seg data ff (S (S (length data))) (new_lexer data) [] (new_lexer_inv data)) as Hs.
   destruct (all_tokens_loop (S (S (length data))) ff (new_lexer data)) as [[ts0 ds] b].
   destruct b; [discriminate|]. destruct ds; [|discriminate]. injection H as <-. apply Hs. cbn. lia.
+Qed.
+
+Lemma last_cons_some (l : list (option token)) x d : last (x :: l) d = last l x.
+Proof. revert x d. induction l as [|y r IH]; intros x d; [reflexivity|]. change (last (x :: y :: r) d) with (last (y :: r) d). rewrite !IH. reflexivity. Qed.
+
+(* ---- a run of tokens without EOL: the line on which the next token starts ------------------------ *)
+Fixpoint span_sum (ts : list token) : Z :=
+  match ts with [] => 0 | t :: r => (fst (tend t) - fst (tstart t)) + span_sum r end.
+
+Lemma vchain_extent : forall ts prev, vchain prev ts -> Forall (fun t => ty t <> EOL) ts ->
+  vl (last (map Some ts) prev) = vl prev + span_sum ts.
+Proof.
+  induction ts as [|t r IH]; intros prev Hv Hne; [cbn; lia|].
+  cbn [vchain] in Hv. destruct Hv as [Hs Hr]. inversion Hne as [|x y Ht Hrn]; subst.
+  cbn [map span_sum]. rewrite last_cons_some.
+  rewrite (IH (Some t) Hr Hrn). cbn [vl]. apply tt_eqb_false in Ht. rewrite Ht. lia.
 Qed.
